@@ -93,6 +93,17 @@ def run(prop, tier, seed, only_replay=None):
                 c = cases[0]
                 samples.append(dict(filter=str(c["filter"]), impl=sx.dumps(res[c["id"]]["impl"])))
 
+    if os.environ.get("JV_DEBUG"):
+        with open(os.path.join(core.ROOT, "build", prop + "-debug.txt"), "w") as f:
+            for d in disagreements:
+                f.write("DISAGREE %s\n  vars %s\n  inputs %s\n  impl  %s\n  model %s\n" % (
+                    d["case"].get("filter"), [[n, sx.dumps(x)] for n, x in d["case"].get("vars", [])],
+                    [sx.dumps(x) for x in d["case"].get("inputs", [])],
+                    sx.dumps(d["impl"])[:700] if d["impl"] is not None else None, sx.dumps(d["model"])[:700] if d["model"] is not None else None))
+            for v in oracle_violations:
+                f.write("ORACLE %s %s\n" % (v["key"], v["what"]))
+            if proofs:
+                f.write("PROOF problems: %s\n" % proofs["problems"])
     # 2. decide
     known = core.load_known()
     reported = []
